@@ -194,6 +194,16 @@ func produceVerificationArgs(
 		)
 	}
 
+	// The confirmation-block check of the callers subtracts the block numbers as uint64. Height.LT compares
+	// block numbers only when the revision numbers are equal, so make sure the subtraction cannot wrap.
+	if cs.GetLatestHeight().GetRevisionHeight() < height.GetRevisionHeight() {
+		return Proof{}, nil, sdkerrors.Wrapf(
+			sdkerrors.ErrInvalidHeight,
+			"client state block number < proof block number (%d < %d)",
+			cs.GetLatestHeight().GetRevisionHeight(), height.GetRevisionHeight(),
+		)
+	}
+
 	if proof == nil {
 		return Proof{}, nil, sdkerrors.Wrap(ErrInvalidProof, "proof cannot be empty")
 	}
